@@ -106,6 +106,9 @@ class ConfResult:
         self.fs = None
         self.listing_after = None
         self.sqlite_dump = None
+        self.first_attempt = None
+        self.score_arrays_before = None
+        self.score_arrays_after = None
 
     def err_sig(self):
         if self.exc is None:
@@ -115,7 +118,7 @@ class ConfResult:
 
 def run_assign_confidence(tables, scores, conf, workdir, name, fmt="pin", row_group=None, sched_desc=None,
                           knobs=None, glob_seed=None, faults=None, killable=False, report_path=None,
-                          dest=None, descs=None, max_workers=1, read_workers=1, fasta_seed=None, sqlite=False):
+                          dest=None, descs=None, max_workers=1, read_workers=1, fasta_seed=None, sqlite=False, fail_first=False):
     """read_pin (un-simulated, 1 worker) then assign_confidence under the simulator."""
     import mokapot
 
@@ -152,11 +155,27 @@ def run_assign_confidence(tables, scores, conf, workdir, name, fmt="pin", row_gr
     with world.sim_env(sched_desc, knobs, faults=faults, glob_seed=glob_seed, killable=killable,
                        report_path=report_path) as (sch, fs):
         res.sched, res.fs = sch, fs
+        score_arrays = [np.array(s, dtype=float) for s in scores]  # the caller's own (writable) arrays
+        res.score_arrays_before = [a.copy() for a in score_arrays]
+        if fail_first:
+            # a first attempt with the very same argument objects that fails (the destination does not exist yet);
+            # the caller then creates the directory and calls again
+            try:
+                mokapot.assign_confidence(
+                    psms=datasets, max_workers=max_workers, scores=score_arrays, descs=descs,
+                    eval_fdr=conf.get("eval_fdr", 0.1037), dest_dir=dest / "not" / "yet" / "there",
+                    file_root=conf.get("file_root", ""), prefixes=prefixes, decoys=conf.get("decoys", True),
+                    deduplication=conf.get("dedup", True), do_rollup=conf.get("rollup", True), proteins=proteins,
+                    rng=conf.get("seed", 0),
+                )
+                res.first_attempt = "succeeded"
+            except (Exception, SystemExit) as exc:  # noqa: BLE001
+                res.first_attempt = f"failed: {type(exc).__name__}"
         try:
             mokapot.assign_confidence(
                 psms=datasets,
                 max_workers=max_workers,
-                scores=[np.asarray(s, dtype=float) for s in scores],
+                scores=score_arrays,
                 descs=descs,
                 eval_fdr=conf.get("eval_fdr", 0.1037),
                 dest_dir=dest,
@@ -179,6 +198,7 @@ def run_assign_confidence(tables, scores, conf, workdir, name, fmt="pin", row_gr
                 res.files[f] = fh.read()
     if db is not None:
         res.sqlite_dump = dump_result_db(db)
+    res.score_arrays_after = score_arrays
     return res
 
 
